@@ -102,8 +102,33 @@ SHOW = {"all": {"PASS", "FAIL", "SKIP"}, "pass": {"PASS"}, "fail": {"FAIL"}, "sk
         "fail,skip": {"FAIL", "SKIP"}}
 
 
+def check_unparsable_next_to_failing(ctx):
+    """a rules file that does not parse next to one that FAILs: whatever the exit code is, it is the same in every rendering and order"""
+    fl = {"broken.guard": "rule b { a == }\n", "failing.guard": "rule f {\n    x == 1\n}\n", "d.json": "{\"x\": 2}"}
+    codes = {}
+    for mname, tail in (("s-json", ["--structured", "-S", "none", "-o", "json"]), ("s-yaml", ["--structured", "-S", "none", "-o", "yaml"]), ("s-sarif", ["--structured", "-S", "none", "-o", "sarif"]),
+                        ("s-junit", ["--structured", "-S", "none", "-o", "junit"]), ("plain", []), ("plain-json", ["-o", "json"])):
+        for oname, R in (("broken-first", ["-r", "{S}/broken.guard", "-r", "{S}/failing.guard"]), ("failing-first", ["-r", "{S}/failing.guard", "-r", "{S}/broken.guard"])):
+            r = ctx.w.run({"k": "cli", "argv": ["validate"] + R + ["-d", "{S}/d.json"] + tail, "files": fl})
+            ctx.res.cases += 1
+            if core.crash_signature(r) or r.get("code") is None:
+                ctx.inconclusive("crash")
+                return
+            codes["%s/%s" % (mname, oname)] = r.get("code")
+    ctx.res.counts["unparsable_next_to_failing_runs"] += len(codes)
+    if any(c in (0,) for c in codes.values()):
+        ctx.violation("exit:unparsable-rules-file-next-to-failing-one:success", "a run with an unparsable and a failing rules file exits 0: %s" % codes, {"kind": "mixed-exit"})
+    elif len(set(codes.values())) > 1:
+        ctx.violation("exit:unparsable-rules-file-next-to-failing-one:%s" % "-vs-".join(str(c) for c in sorted(set(codes.values()))),
+                      "an unparsable rules file next to a failing one: the exit code depends on the rendering and on the order of the files: %s" % codes, {"kind": "mixed-exit"})
+    else:
+        ctx.res.distinct.add(("mixed-exit", tuple(sorted(set(codes.values())))))
+
+
 def shard(ctx):
     rng = ctx.rng("c07")
+    if ctx.mine(0):
+        check_unparsable_next_to_failing(ctx)
     o = gen.Opts(types=True, calls=True, msgs=True, max_rules=4, max_lines=3, default=True)
     n = 22 if ctx.quick else 520
     for t in range(n):
@@ -547,6 +572,9 @@ def replay(case, w):
         def violation(self, sig, what, rp):
             found.append(sig)
     c = Ctx(w, 0, 1, 1, "thorough", res, {"prop": "C07"})
+    if case.get("kind") == "mixed-exit":
+        check_unparsable_next_to_failing(c)
+        return not found, "violations: %s" % sorted(set(found))
     if case.get("kind") == "multi":
         check_multi(c, case["rules"], case["data"], zp=case.get("zp"))
         return not found, "violations: %s" % sorted(set(found))
